@@ -961,7 +961,7 @@ func printCallgrind(w io.Writer, rpt *Report) error {
 
 		// Print outgoing edges.
 		for _, out := range n.Out.Sort() {
-			c, _ := measurement.Scale(out.Weight, o.SampleUnit, o.OutputUnit)
+			c, _ := measurement.Scale(out.WeightValue(), o.SampleUnit, o.OutputUnit)
 			callee := out.Dest
 			fmt.Fprintln(w, "cfl="+callgrindName(files, callee.Info.File))
 			fmt.Fprintln(w, "cfn="+callgrindName(names, nodeNames[callee]))
@@ -1097,8 +1097,8 @@ func printTree(w io.Writer, rpt *Report) error {
 			if in.Inline {
 				inline = " (inline)"
 			}
-			fmt.Fprintf(w, "%50s %s |   %s%s\n", rpt.formatValue(in.Weight),
-				measurement.Percentage(in.Weight, cum), in.Src.Info.PrintableName(), inline)
+			fmt.Fprintf(w, "%50s %s |   %s%s\n", rpt.formatValue(in.WeightValue()),
+				measurement.Percentage(in.WeightValue(), cum), in.Src.Info.PrintableName(), inline)
 		}
 
 		// Print current node.
@@ -1118,8 +1118,8 @@ func printTree(w io.Writer, rpt *Report) error {
 			if out.Inline {
 				inline = " (inline)"
 			}
-			fmt.Fprintf(w, "%50s %s |   %s%s\n", rpt.formatValue(out.Weight),
-				measurement.Percentage(out.Weight, cum), out.Dest.Info.PrintableName(), inline)
+			fmt.Fprintf(w, "%50s %s |   %s%s\n", rpt.formatValue(out.WeightValue()),
+				measurement.Percentage(out.WeightValue(), cum), out.Dest.Info.PrintableName(), inline)
 		}
 	}
 	if len(g.Nodes) > 0 {
